@@ -21,7 +21,8 @@ Inductive pc :=
 | PTick      (* default arm: about to call calculateNextTick (queue.Head()) and timer.Reset *)
 | PSelect    (* blocked in select on timer.C / interrupt (ctx.Done: see Lifecycle.v) *)
 | PFetch     (* took the tick: about to run fetchAndReschedule *)
-| PDispatch. (* holds a valid job: executing it (blocking), handing it to a worker, or forking *)
+| PDispatch  (* holds a valid job: executing it (blocking), handing it to a worker, or forking *)
+| PExit.     (* returned (its context was cancelled) *)
 
 Record st := mkst {
   q : list Z;            (* priorities (next run times) of the stored entries; paused = math.MaxInt64 *)
@@ -75,7 +76,11 @@ Record cfg := mkcfg {
   c_sets_ff : bool;    (* fetchFailed = !executeAndReschedule(ctx) *)
   c_tick_fetches : bool;   (* the timer arm calls executeAndReschedule *)
   c_tok_recomputes : bool; (* the interrupt arm falls through to the next iteration *)
-  c_fetch_resets : bool    (* fetchAndReschedule calls Reset() after a successful push-back *)
+  c_fetch_resets : bool;   (* fetchAndReschedule calls Reset() after a successful push-back *)
+  c_ctxdone : bool;        (* THIS loop's context is cancelled (a loop of a stopped run that has not returned yet) *)
+  c_tick_checks_ctx : bool;   (* the timer arm returns without fetching when ctx.Err() != nil *)
+  c_tok_checks_ctx : bool;    (* the interrupt arm returns when ctx.Err() != nil ... *)
+  c_tok_gives_back : bool     (* ... after calling Reset(), i.e. giving the token back *)
 }.
 
 Definition code_cfg (drain : bool) (ri : Z) : cfg :=
@@ -83,7 +88,17 @@ Definition code_cfg (drain : bool) (ri : Z) : cfg :=
         loop_clears_fetch_failed
         (select_tick_sets_fetch_failed && exec_returns_false_on_fetch_error && fetch_pop_error_returns_error)
         select_tick_fetches
-        select_interrupt_recomputes fetch_resets_after_push.
+        select_interrupt_recomputes fetch_resets_after_push
+        false select_tick_checks_ctx select_interrupt_checks_ctx select_interrupt_gives_token_back.
+
+(* the loop of a run that has been stopped: same code, its context is cancelled *)
+Definition stale_cfg (drain : bool) (ri : Z) : cfg :=
+  mkcfg loop_switch drain ri interrupt_cap tick_head_empty tick_head_error tick_cmp
+        loop_clears_fetch_failed
+        (select_tick_sets_fetch_failed && exec_returns_false_on_fetch_error && fetch_pop_error_returns_error)
+        select_tick_fetches
+        select_interrupt_recomputes fetch_resets_after_push
+        true select_tick_checks_ctx select_interrupt_checks_ctx select_interrupt_gives_token_back.
 
 Definition cmp (op : cmp_op) (a b : Z) : bool :=
   match op with OpGe => b <=? a | OpGt => b <? a | OpLe => a <=? b | OpLt => a <? b
@@ -136,7 +151,8 @@ Inductive label :=
 | TimerFire                   (* the runtime delivers the tick *)
 | LoopSize (o : outcome)      (* Size() and the switch *)
 | LoopTick (o : outcome)      (* calculateNextTick (Head(), NowNano()) and timer.Reset *)
-| SelTick | SelTok            (* the two ways out of the select *)
+| SelTick | SelTok            (* the timer arm and the interrupt arm of the select *)
+| SelDone                     (* the ctx.Done arm (only a loop whose context is cancelled) *)
 | LoopFetch (po : outcome) (valid : bool) (resched : option Z) (pusho : outcome)
                               (* fetchAndReschedule: Pop, classify (abstract), optional Push, Reset *)
 | LoopDispatched              (* executeAndReschedule returned *)
@@ -146,7 +162,7 @@ Inductive label :=
                                  Remove; a shared queue losing entries): q' has no new priority *)
 
 Definition loop_label (l : label) : bool :=
-  match l with LoopSize _ | LoopTick _ | SelTick | SelTok | LoopFetch _ _ _ _ | LoopDispatched => true
+  match l with LoopSize _ | LoopTick _ | SelTick | SelTok | SelDone | LoopFetch _ _ _ _ | LoopDispatched => true
              | _ => false end.
 Definition label_faults (l : label) : bool :=
   match l with
@@ -184,10 +200,20 @@ Definition step (s : st) (l : label) : option st :=
       match lpc s with
       | PSelect => if chan s
                    then let s1 := if stale s then clear_lf s else s in
-                        Some (set_lpc (if c_tick_fetches c then PFetch else PSize) (set_chan false (set_stale false s1)))
+                        if c_ctxdone c && c_tick_checks_ctx c
+                        then Some (set_lpc PExit (set_chan false (set_stale false s1)))     (* stopped run: no fetch *)
+                        else Some (set_lpc (if c_tick_fetches c then PFetch else PSize) (set_chan false (set_stale false s1)))
                    else None
       | _ => None end
-  | SelTok => match lpc s with PSelect => if tok s then Some (take_token s) else None | _ => None end
+  | SelTok =>
+      match lpc s with
+      | PSelect => if tok s
+                   then if c_ctxdone c && c_tok_checks_ctx c
+                        then Some (set_lpc PExit ((if c_tok_gives_back c then send_tok else fun x => x) (take_token s)))
+                        else Some (take_token s)
+                   else None
+      | _ => None end
+  | SelDone => match lpc s with PSelect => if c_ctxdone c then Some (set_lpc PExit (set_armed false s)) else None | _ => None end
   | LoopFetch po valid resched pusho =>
       match lpc s with
       | PFetch =>
@@ -234,7 +260,11 @@ Definition nofault (tr : list label) : Prop := Forall (fun l => label_faults l =
 (* the loop as it was before the fix of S12: no fetchFailed arm *)
 Definition prefix_cfg (drain : bool) (ri : Z) : cfg :=
   mkcfg [(GSizeErr, TRetryInterval); (GSizeZero, TMaxDuration); (GDefault, TNextTick)]
-        drain ri 1 TZero TRetryInterval OpGt true true true true true.
+        drain ri 1 TZero TRetryInterval OpGt true true true true true false false false false.
+
+(* the loop as it was before the fix c87a9a8: the select arms do not look at the context *)
+Definition nocheck_cfg (ctxdone drain : bool) (ri : Z) : cfg :=
+  mkcfg loop_switch drain ri 1 TZero TRetryInterval OpGt true true true true true ctxdone false false false.
 
 (* ---- an API method seen as the sequence of its queue calls (Gen/Params.v: api_queue_calls) ---- *)
 From Coq Require Import String.
